@@ -749,7 +749,7 @@ func impliesNot(g, t *Term) bool {
 	var walk func(x *Term) bool
 	walk = func(x *Term) bool {
 		seen++
-		if seen > 400 {
+		if seen > 20000 {
 			return false
 		}
 		switch x.op {
